@@ -417,6 +417,8 @@ fn self_containing_case(src: &mut Src, ctx: &mut Ctx) -> Result<(), String> {
     let through_unit = src.prob(1, 3);
     let relative = src.prob(1, 3);
     let listed_as_placeable = src.prob(1, 4);
+    // or as the unit of an array nested 1-4 deep among the objects awaiting placement
+    let array_depth = if src.prob(1, 4) { src.usize_in(1, 4) } else { 0 };
     // the cell that receives the instance of `top`
     let host: Ptr<Cell> = if through_unit {
         let t = top.read().unwrap();
@@ -437,18 +439,84 @@ fn self_containing_case(src: &mut Src, ctx: &mut Ctx) -> Result<(), String> {
             _ => (7isize, 11isize).into(),
         };
         let inst = Ptr::new(Instance { inst_name: "myself".into(), cell: top.clone(), loc, reflect_horiz: false, reflect_vert: false });
-        if listed_as_placeable {
+        if array_depth > 0 {
+            let mut arr = Ptr::new(Array { name: "a0".into(), unit: Arrayable::Instance(top.clone()), count: 2, sep: Separation::x(SepBy::UnitSpeced(UnitSpeced::PrimPitches(PrimPitches::x(3)))) });
+            for d in 1..array_depth {
+                arr = Ptr::new(Array { name: format!("a{}", d), unit: Arrayable::Array(arr), count: 1 + d % 2, sep: Separation::y(SepBy::UnitSpeced(UnitSpeced::PrimPitches(PrimPitches::y(5)))) });
+            }
+            lay.places.push(Placeable::Array(Ptr::new(ArrayInstance { name: "myselves".into(), array: arr, loc: Place::Abs(Xy::from((1isize, 2isize))), reflect_vert: false, reflect_horiz: false })));
+        } else if listed_as_placeable {
             lay.places.push(Placeable::Instance(inst));
         } else {
             lay.instances.push(inst);
         }
     }
     ctx.label(if through_unit { "cell containing itself through a unit cell" } else { "cell containing itself directly" });
-    ctx.nontrivial(hash_of(&(&p, through_unit, relative, listed_as_placeable)));
+    ctx.nontrivial(hash_of(&(&p, through_unit, relative, listed_as_placeable, array_depth)));
+    if array_depth >= 3 {
+        ctx.label("cell containing itself through an array nested three or more deep");
+    }
     match tet::placer::Placer::place(lib, empty_stack()) {
         Err(_) => Ok(()),
-        Ok(_) => Err(format!("a cell that contains an instance of itself ({}, {} instance{}) was placed without an error; program {:?}", if through_unit { "through a unit cell" } else { "directly" }, if relative { "relative" } else { "absolute" }, if listed_as_placeable { " listed as placeable" } else { "" }, p)),
+        Ok(_) => Err(format!("a cell that contains an instance of itself ({}, {} instance{}) was placed without an error; program {:?}", if through_unit { "through a unit cell" } else { "directly" }, if relative { "relative" } else { "absolute" }, if array_depth > 0 { format!(" as the unit of an array nested {} deep", array_depth) } else if listed_as_placeable { " listed as placeable".to_string() } else { String::new() }, p)),
     }
+}
+/// Instance names are labels, not identities: programs whose instances are all unnamed, all share one name, or
+/// take the name of the instance they are placed against must be placed exactly like the same program with
+/// distinct names.
+fn same_names_case(src: &mut Src, ctx: &mut Ctx) -> Result<(), String> {
+    let p = gen_program(src);
+    let want = model_place(&p).ok_or("harness: program not acyclic")?;
+    let (lib, top, _twin) = build(&p);
+    let mode = src.below(3);
+    // the handles of the program's instances, by index (an unlisted root is reached through a relation only)
+    let mut handles: Vec<Option<Ptr<Instance>>> = vec![None; p.insts.len()];
+    {
+        let t = top.read().unwrap();
+        let lay = t.layout.as_ref().unwrap();
+        let all: Vec<Ptr<Instance>> = lay.instances.iter().cloned().chain(lay.places.iter().filter_map(|pl| if let Placeable::Instance(i) = pl { Some(i.clone()) } else { None })).collect();
+        for h in all {
+            let idx: Option<usize> = h.read().unwrap().inst_name[1..].parse().ok();
+            if let Some(i) = idx {
+                handles[i] = Some(h);
+            }
+        }
+    }
+    for (i, h) in handles.iter().enumerate() {
+        if let Some(h) = h {
+            let name = match mode {
+                0 => String::new(),
+                1 => "dup".to_string(),
+                // the name of the root of the instance's chain
+                _ => {
+                    let mut r = i;
+                    while let Some(rel) = &p.insts[r].rel {
+                        r = rel.to;
+                    }
+                    format!("i{}", r)
+                }
+            };
+            h.write().unwrap().inst_name = name;
+        }
+    }
+    ctx.label(["all instances unnamed", "all instances share one name", "instances named after the root of their chain"][mode as usize]);
+    if p.insts.iter().any(|m| m.rel.is_some()) {
+        ctx.nontrivial(hash_of(&(&p, mode)));
+    }
+    tet::placer::Placer::place(lib, empty_stack()).map_err(|e| format!("placement failed for a program whose instances {}: {:?}; program {:?}", ["are all unnamed", "share one name", "are named after the root of their chain"][mode as usize], e, p))?;
+    for (i, h) in handles.iter().enumerate() {
+        if let Some(h) = h {
+            let inst = h.read().unwrap();
+            let got = match &inst.loc {
+                Place::Abs(xy) => (xy.x.num as i64, xy.y.num as i64),
+                Place::Rel(_) => return Err(format!("instance {} still has a relative location after placement (names mode {})", i, mode)),
+            };
+            if got != want[i] {
+                return Err(format!("instance {} (named {:?}) placed at {:?}, the relation model gives {:?}; program {:?}", i, inst.inst_name, got, want[i], p));
+            }
+        }
+    }
+    Ok(())
 }
 /// fixed ab62e2a: a cell whose list of objects awaiting placement holds an instance of the cell itself, placed
 /// relative to a sibling, was not seen by the cyclic-instantiation check; the placer then waited forever for
@@ -569,7 +637,24 @@ fn array_case(src: &mut Src, ctx: &mut Ctx) -> Result<(), String> {
     let na = src.usize_in(1, 3);
     let arrs: Vec<MArrayInst> = (0..na).map(|_| MArrayInst { array: gen_array(src, 2, nc), loc: (src.signed(300), src.signed(300)), rh: src.bool(), rv: src.bool() }).collect();
     let mut lib = tet::library::Library::new("alib");
-    let cells: Vec<Ptr<Cell>> = sizes.iter().enumerate().map(|(i, s)| lib.cells.add(Cell::from(Layout::new(format!("c{}", i), 0, outline_of(*s))))).collect();
+    // one case in three: the unit cells are not listed in the library (they are reached through the arrays
+    // only, at whatever nesting depth) and hold a relatively placed pair of their own
+    let inner_pairs = src.prob(1, 3);
+    let leaf = lib.cells.add(Cell::from(Layout::new("leaf", 0, Outline::rect(2, 3).unwrap())));
+    let cells: Vec<Ptr<Cell>> = sizes
+        .iter()
+        .enumerate()
+        .map(|(i, s)| {
+            let mut lay = Layout::new(format!("c{}", i), 0, outline_of(*s));
+            if inner_pairs {
+                let a = lay.instances.add(Instance { inst_name: "a".into(), cell: leaf.clone(), loc: (1isize, 1isize).into(), reflect_horiz: false, reflect_vert: false });
+                lay.instances.add(Instance { inst_name: "b".into(), cell: leaf.clone(), loc: Place::Rel(RelativePlace { to: Placeable::Instance(a), side: tet::placement::Side::Right, align: Align::Side(tet::placement::Side::Bottom), sep: Separation::default() }), reflect_horiz: false, reflect_vert: false });
+                Ptr::new(Cell::from(lay))
+            } else {
+                lib.cells.add(Cell::from(lay))
+            }
+        })
+        .collect();
     let mut top = Layout::new("top", 0, Outline::rect(100_000, 100_000).unwrap());
     let mut want = vec![];
     for (k, ai) in arrs.iter().enumerate() {
@@ -595,6 +680,38 @@ fn array_case(src: &mut Src, ctx: &mut Ctx) -> Result<(), String> {
     }
     ctx.sample("array instances", || format!("cell sizes {:?} arrays {:?}", sizes, arrs));
     let (lib, _) = tet::placer::Placer::place(lib, empty_stack()).map_err(|e| format!("placement of arrays failed: {:?}", e))?;
+    if inner_pairs {
+        ctx.label("unlisted unit cells with a relative pair inside");
+        let mut used = vec![false; nc];
+        fn mark(a: &MArray, used: &mut Vec<bool>) {
+            match &a.unit {
+                MUnit::Cell(c) => used[*c] = true,
+                MUnit::Array(inner) => mark(inner, used),
+            }
+        }
+        for ai in &arrs {
+            mark(&ai.array, &mut used);
+        }
+        for (i, c) in cells.iter().enumerate() {
+            if !used[i] {
+                continue;
+            }
+            let c = c.read().unwrap();
+            for ip in c.layout.as_ref().unwrap().instances.iter() {
+                let inst = ip.read().unwrap();
+                match &inst.loc {
+                    Place::Abs(xy) => {
+                        let got = (xy.x.num as i64, xy.y.num as i64);
+                        let want = if inst.inst_name == "a" { (1, 1) } else { (3, 1) };
+                        if got != want {
+                            return Err(format!("unit cell c{} (reached through an array only): instance {} placed at {:?}, expected {:?}; arrays {:?}", i, inst.inst_name, got, want, arrs));
+                        }
+                    }
+                    Place::Rel(_) => return Err(format!("unit cell c{} is reached through an array among the objects awaiting placement (it is not listed in the library), and its instance {} still has a relative location after placement; arrays {:?}", i, inst.inst_name, arrs)),
+                }
+            }
+        }
+    }
     let topc = lib.cells.iter().find(|c| c.read().unwrap().name == "top").unwrap().clone();
     let topc = topc.read().unwrap();
     let mut got = vec![];
@@ -616,7 +733,7 @@ fn array_case(src: &mut Src, ctx: &mut Ctx) -> Result<(), String> {
 }
 
 fn run(run: &mut Run) {
-    run.rule("The single-relation table (4 sides x 2 orthogonal alignments x 4 reflections of the placed x 4 of the reference instance x 3 separation kinds = 384, exhaustive); random programs of 1-25 instances over 1-5 cell sizes: 1-3 absolute roots, every other instance placed relative to an earlier one (chains and trees), all sides/alignments/reflections/separations, instance indices relabelled and the listing shuffled, each placed in two listing orders; cyclic programs (cycle length 1-5 spliced in; one in five a cell that contains an instance of itself, directly or through a unit cell, absolute or relative, in `instances` or among the objects awaiting placement) must be errors; absolute array instances with count 0-6, pitch in x and/or y, both reflections, nesting depth <= 3. Oracle: bounding-box model of the relation; Instance::boundbox() must agree. Non-trivial = chain depth >= 2 with a reflected relative instance and a listing that is not dependency order; distinct by hash of the program.");
+    run.rule("The single-relation table (4 sides x 2 orthogonal alignments x 4 reflections of the placed x 4 of the reference instance x 3 separation kinds = 384, exhaustive); random programs of 1-25 instances over 1-5 cell sizes: 1-3 absolute roots, every other instance placed relative to an earlier one (chains and trees), all sides/alignments/reflections/separations, instance indices relabelled and the listing shuffled, each placed in two listing orders; cyclic programs (cycle length 1-5 spliced in; one in five a cell that contains an instance of itself, directly or through a unit cell, absolute or relative, in `instances` or among the objects awaiting placement) must be errors; absolute array instances with count 0-6, pitch in x and/or y, both reflections, nesting depth <= 3, unit cells listed or reached through the arrays only (then holding a relative pair of their own that must be placed); programs whose instances are unnamed or share names. Oracle: bounding-box model of the relation; Instance::boundbox() must agree. Non-trivial = chain depth >= 2 with a reflected relative instance and a listing that is not dependency order; distinct by hash of the program.");
     run.assume("non-orthogonal side/alignment pairs, Center/Ports alignment, placement relative to arrays/groups and relative array placement are unimplemented in the code and outside the quantifier");
     run.min_nontrivial = 200;
     run.enumerate("relation-table", table_total(), &table_case);
@@ -625,6 +742,7 @@ fn run(run: &mut Run) {
     run.explore_fresh("programs", run.tier.pick(3_000, 40_000), 400, &program_case);
     run.explore("cyclic", run.tier.pick(40_000, 400_000), 400, &cyclic_case);
     run.literals("literals", &[vec![0]], &literal_case);
+    run.explore("same-names", run.tier.pick(40_000, 400_000), 400, &same_names_case);
     run.explore("arrays", run.tier.pick(200_000, 2_000_000), 200, &array_case);
     // the same, each case in a thread of its own (per-thread state of the code starts from scratch)
     run.explore_fresh("arrays", run.tier.pick(3_000, 40_000), 200, &array_case);
@@ -635,6 +753,7 @@ fn case(sub: &str) -> Option<Box<CaseFn<'static>>> {
         "programs" => Some(Box::new(program_case)),
         "cyclic" => Some(Box::new(cyclic_case)),
         "literals" => Some(Box::new(literal_case)),
+        "same-names" => Some(Box::new(same_names_case)),
         "arrays" => Some(Box::new(array_case)),
         _ => None,
     }
@@ -643,7 +762,7 @@ fn render(sub: &str, choices: &[u32]) -> Option<String> {
     let mut src = Src::new(choices);
     match sub {
         "relation-table" => Some(format!("{:?}", table_program(src.u64()))),
-        "programs" | "cyclic" => Some(format!("{:?}", gen_program(&mut src))),
+        "programs" | "cyclic" | "same-names" => Some(format!("{:?}", gen_program(&mut src))),
         _ => None,
     }
 }
